@@ -384,6 +384,9 @@ func (e *Env) cleanup() {
 		e.CloseAll()
 	}
 	if e.Dir != "" {
+		if os.Getenv("VERIF_KEEP") != "" {
+			fmt.Fprintf(os.Stderr, "KEEP %s: %s\n", e.Dir, dirListing(e.Dir))
+		}
 		os.RemoveAll(e.Dir)
 	}
 }
